@@ -20,7 +20,7 @@ Definition len_ok (r : srec) : bool := (rLen r =? lenN (enc_rec_body r)) && u32 
 Definition wf_flow_rec (r : srec) : bool :=
   len_ok r &&
   match rKind r, rVals r, rBlobs r, rLists r with
-  | KHeader, [a; b; c; d], [h], [] => (rFmt r =? 1) && all32 [a; b; c; d]
+  | KHeader, [a; b; c; d], [h], [] => (rFmt r =? 1) && all32 [a; b; c; d] && (d =? lenN h)   (* header_length is the length of the header *)
   | KEth, [l; e], [s; t], [] => (rFmt r =? 2) && all32 [l; e] && Nat.eqb (length s) 6 && Nat.eqb (length t) 6
   | KIPv4, [a; b; c; d; e; f], [s; t], [] =>
       (rFmt r =? 3) && all32 [a; b; c; d; e; f] && Nat.eqb (length s) 4 && Nat.eqb (length t) 4
